@@ -160,7 +160,8 @@ type ConsState struct {
 	Push        *actors.RtmpServerStub // pseudo-consumer: a relay-push target
 	// state of a stalled consumer at the end of the scenario proper (before the harness lets it drain)
 	ClosedAtEnd, BlockedAtEnd bool
-	PushAttachStep            int // push targets: the step at which lal attached the session to the group (0: unknown)
+	BlockedForMsAtEnd         int64 // how long lal's write in progress had been waiting when the scripted operations were over
+	PushAttachStep            int   // push targets: the step at which lal attached the session to the group (0: unknown)
 	Joined                    bool
 	Left                      bool
 	Kicked                    bool
